@@ -34,6 +34,27 @@ CHECKS = {
          'identity helpers return only established identities; failure arms answer AUTHENTICATION_NOT_SUCCESSFUL through a side-effect-free '
          'engine method; the two settings are plumbed unchanged from the configuration. Exhaustive over all CFG paths of the anchored functions.',
          'Trusted: ssl/cryptography.x509 accessors, the requests library, the SLUGS service.'),
+ 'C03': ('who-may-call sweep, argument provenance (reaching definitions), CFG dominance, decision-tree extraction compared with the documented policy table',
+         'Exhaustive over every store access, choke-point call site (16), the three decision functions (all return paths and guard atoms) and all '
+         '_owner/_client_identity stores in the package: single choke point, prescribed operation argument, allowed-edge dominance, default-deny '
+         'decision trees, masking text, closed write-sets, Locate provenance. Decides the access-control mechanism for all policies/identities/'
+         'histories at once; SQLAlchemy query semantics are trusted.',
+         'Trusted: SQLAlchemy filter/one semantics; T_ACCESS_OP and the section-choice table transcribe the property statement and docs/source/server.rst.'),
+ 'C04': ('typestate abstract interpretation of all handlers (type x state x mask-bit domains, disjunctive, helpers inlined) + who-writes sweep',
+         'The transition relation is extracted from the code for all paths and compared with the lifecycle table; the facts holding at each of the 9 '
+         'CryptographyEngine call sites are compared with the required (type, ACTIVE, bit) rows; Destroy delete excludes ACTIVE. Sound for all '
+         'operation histories because states are only changed at the 5 store sites found by the package-wide sweep.',
+         'Trusted: enum identity semantics; rows of destroyed objects are gone (C07.R3). Bounds: inlining depth 3, 96 disjuncts (exit 2 if hit).'),
+ 'C16': ('constant folding of version tables + CFG dominance for gates; evaluation of Query per supported version; registry cross-check against the KMIP specification table',
+         'Version list/acceptance/echo, 21 per-operation gates vs the specification, Query evaluated under each of the 6 versions against the gated dispatch '
+         'table, DiscoverVersions provenance, encode-version dataflow in the session, attribute added/deprecated gating sites and agreement of the two '
+         'attribute-version registries. Exhaustive over the finite version x operation x attribute grid by construction.',
+         'Trusted: ProtocolVersion comparison operators; the frozen specification tables (T_OPMIN, T_ATTR_ADDED, T_ATTR_DEPRECATED).'),
+ 'C19': ('CFG dominance + reaching definitions over the 21 client operations and KMIPProxy; structural check of the receive loop; composition of the two version mappings',
+         'Every data return of every client operation is dominated by the success test on the result\'s own status, the failure edge raises the '
+         'result\'s own (status, reason, message); 48 result constructions take the triple from the same-named batch-item fields; decode errors '
+         'propagate; framing loop bounded and complete; version mapping is the identity. Payload data field naming beyond the triple is not decided.',
+         'Trusted: socket.recv semantics. Request decodability (R5) rests on the C01 schema agreement.'),
 }
 
 NOT_YET = 'check not built yet in this session (rules designed in DESIGN.md section 4); will be claimed once its check exists and is silent on the unchanged tree'
